@@ -499,9 +499,9 @@ class CRFactory(object):
         )
 
         #Deterministic contribution given by relaxation
-        det1 = (a*omega-a*np.sin(omega))/(2*omega)
-        det2 = (a/omega)*(1-np.cos(omega))
-        det3 = a/(2*omega)*(omega+np.sin(omega))
+        det1 = self.integrator.integrate("sin(theta/(2*a))**2", omega, a)
+        det2 = self.integrator.integrate("sin(theta/a)", omega, a)
+        det3 = self.integrator.integrate("cos(theta/(2*a))**2", omega, a)
 
         deterministic_r_ctr = -e1_ctr**2/2 * np.array([[0,0,0,0],[0,0,0,0],[0,0,a,0],[0,0,0,a]])
         deterministic_r_trg = -e1_trg**2/2 * np.array(
